@@ -6,11 +6,14 @@ CONSTANTS
   OneHitEnc = TRUE
   ScoreNone = FALSE
   HeapTakeover = 10
-  MaxCalls = 4
+  MaxCalls = 3
   NTerms = 3
   Family = "flat"
   DropK1 = FALSE
   Queries <- MCQueries
+  FixEmptySnapshot = FALSE
+  FixBoolAdvance = FALSE
+  FixShouldMin = FALSE
   FirstAdvanceOK <- FirstAdvNoQ2
 VIEW View
 INVARIANT ResultOK
